@@ -1,7 +1,7 @@
 """C11 — events reach exactly the handlers subscribed at that moment.
 
-Theorems: lean/Abverif/Proofs/C11.lean over Model/Session.lean (EVENT branch with the live handler list and the
-shared kwargs dict explicit) and Model/SessSpec.lean (`Spec.dispatch`). Tie and failing-input search as in C04
+Theorems: lean/Abverif/Proofs/C11.lean over Model/Session.lean (EVENT branch: snapshot of the handler list, inactive
+subscriptions skipped, one kwargs dict per handler) and Model/SessSpec.lean (`Spec.dispatch`). Tie and failing-input search as in C04
 (vlib/sesscheck.py, vlib/wamp.py, harness/workers/sess_worker.py), with histories of subscribe / SUBSCRIBED / ERROR /
 unsubscribe / UNSUBSCRIBED / EVENT and scripted handler behaviour.
 
@@ -18,8 +18,7 @@ TRANSLATORS = [tr_sess.translate]
 TRUSTED = [
     "Lean 4.33 kernel; axioms of every theorem audited to be within {propext, Classical.choice, Quot.sound}",
     "hand-written Lean model Abverif/Model/Session.lean of the Event/Subscribed/Unsubscribed branches of "
-    "ApplicationSession.onMessage, subscribe(), _unsubscribe(), Subscription.unsubscribe() (live list cursor and "
-    "aliased kwargs dict explicit); user code is a script of behaviours carried by the event",
+    "ApplicationSession.onMessage, subscribe(), _unsubscribe(), Subscription.unsubscribe(); user code is a script of behaviours carried by the event",
     "tie model<->code: differential run of real ApplicationSession objects (Twisted and asyncio) over a mock "
     "ITransport against the model through the compiled driver; bounded by the generators",
     "txaio.as_future calls a plain handler synchronously; its errback (onUserError) runs at once on Twisted and at the "
@@ -39,19 +38,18 @@ MANIFEST_ENTRY = {
             "left), event_during_unsubscribe_dropped (no output, no state change), event_unknown_sub_is_violation and "
             "event_for_never_held_id_is_violation (after any history in which no SUBSCRIBED named the id), "
             "no_call_after_unsubscribe (after unsubscribe() no continuation of the history, and no later iteration of the "
-            "same dispatch, invokes that handler), handler_raise_never_escapes. dispatch_exact (exactly the handlers "
-            "attached at arrival, once each, in subscription order, with the event's args/kwargs and only the own details) "
-            "is stated in full against the Spec fan-out, refuted on two concrete histories (F8 shared kwargs dict, F9 live "
-            "list iteration) and proved as dispatch_exact_partial outside those shapes (no synchronous unsubscribe; kwargs "
-            "empty, or no details_arg, or one common details_arg). handler_error_isolated_partial (a raising handler "
+            "same dispatch, invokes that handler), handler_raise_never_escapes, dispatch_exact (in full since the repairs of F8 "
+            "and F9 in /repo 8b7d7882 / 156d2c77: exactly the handlers attached at arrival, once each, in subscription order, "
+            "skipping one detached by an earlier handler of the same dispatch, with the event's args/kwargs and only the own "
+            "details — the model's loop equals the Spec fan-out). handler_error_isolated_partial (a raising handler "
             "changes neither state nor the other invocations) is proved for the Twisted scheduling only. The model is tied "
             "to the code by histories over 1-4 handlers per id with/without details_arg, every reply order, unsubscribe of "
             "first/middle/last handler in every order, events racing with unsubscribe, every payload shape, handlers that "
             "return/raise/unsubscribe themselves or a sibling/subscribe a new handler/call, on both frameworks.",
     "note": "Trusted: Lean kernel; the hand-written model (checked only by the differential run); txaio semantics. "
             "Decorator-driven subscription is a differential observation (part B), not a theorem; error isolation on "
-            "asyncio rests on the differential run. Known findings F8 and F9 are reproduced by the check and listed in "
-            "known_findings.d/C11.jsonl. Spec decision: a handler detached by an earlier handler of the same dispatch is "
+            "asyncio rests on the differential run. F8 and F9 are listed in known_findings.d/C11.jsonl as fixed (8b7d7882, "
+            "156d2c77) and would be reported as violations again. Spec decision: a handler detached by an earlier handler of the same dispatch is "
             "not called (no call after unsubscribe wins over 'attached at arrival').",
 }
 
